@@ -374,6 +374,7 @@ def rules(ck, P):
     _cache_key_rules(ck, P)
     wire.block_geometry_rules(ck, P)
     wire.pm_directory_codec_rules(ck, P)
+    wire.vt_types_rules(ck, P)
     c03.pm_cover_rules(ck, P, "R-PM-COVER")
     # ---------------- R-TAR-PREFIX
     tr = [b for b in P.bodies if b["q"].endswith("tar::reader::TarTilesReader::open_path")]
